@@ -99,10 +99,10 @@ Fixpoint aset {V} (k : list Z) (v : V) (m : list (list Z * V)) : list (list Z * 
 Inductive mst :=
 | MOk
 | M413        (* HTTPError(413) from the reader *)
-| M400        (* HTTPError(400): a field that cannot be decoded *)
-| MEOF        (* EOFError: illegal end of headers / of multipart body *)
-| MValue      (* ValueError: bad boundary, header line without CRLF or ':' *)
-| MUnbound    (* UnboundLocalError: continuation line before any header *)
+| M400        (* HTTPError(400): invalid boundary; end of data inside the part
+                 headers or before a delimiter; a header line without CRLF or
+                 without ':'; a continuation line before any header; a field
+                 that cannot be decoded *)
 | MProc       (* the part's Content-Type selects an Entity processor other than
                  default_proc (urlencoded / multipart): outside the model *)
 | MUnsup      (* header syntax outside the modelled subset of parse_header *)
@@ -139,7 +139,7 @@ Fixpoint rlb_loop (fuel : nat) (c : cfg) (b : list Z) (maxram : Z)
   | O => (MFuel, [], isfile, s)
   | S f =>
     match readline c (Some 65536) s with
-    | (SOk, [], s1) => (MEOF, [], isfile, s1)
+    | (SOk, [], s1) => (M400, [], isfile, s1)
     | (SOk, line, s1) =>
       let t := bnd_test b line prev_lf in
       if t =? 1 then (MOk, [], isfile, s1)
@@ -168,10 +168,10 @@ Fixpoint rh_loop (fuel : nat) (c : cfg) (k : option (list Z)) (h : hdrs) (s : rd
   | O => (MFuel, h, s)
   | S f =>
     match readline c None s with
-    | (SOk, [], s1) => (MEOF, h, s1)
+    | (SOk, [], s1) => (M400, h, s1)
     | (SOk, line, s1) =>
       if eqbZs line [13; 10] then (MOk, h, s1)
-      else if negb (ends_crlf line) then (MValue, h, s1)
+      else if negb (ends_crlf line) then (M400, h, s1)
       else
         let kv :=
           match line with
@@ -179,13 +179,13 @@ Fixpoint rh_loop (fuel : nat) (c : cfg) (k : option (list Z)) (h : hdrs) (s : rd
             if (x =? 32) || (x =? 9) then
               match k with
               | Some k0 => inl (k0, strip line)
-              | None => inr MUnbound
+              | None => inr M400
               end
             else match split1 58 line with
                  | Some (a, b) => inl (strip a, strip b)
-                 | None => inr MValue
+                 | None => inr M400
                  end
-          | [] => inr MValue
+          | [] => inr M400
           end in
         match kv with
         | inr e => (e, h, s1)
@@ -370,7 +370,7 @@ Fixpoint parts_loop (fuel fuel0 : nat) (c : cfg) (b : list Z) (maxram : Z) (s : 
 
 Definition process_multipart (fuel : nat) (c : cfg) (ib : list Z) (maxram : Z) (s : rd)
   : mst * list part * rd :=
-  if negb (valid_boundary ib) then (MValue, [], s)
+  if negb (valid_boundary ib) then (M400, [], s)
   else
     let b := 45 :: 45 :: ib in
     match first_marker fuel c b s with
@@ -534,8 +534,7 @@ Definition encode_mp (ib pre : list Z) (ps : list spart) (tail : list Z) : list 
 
 Definition enc_mst (e : mst) : sx :=
   I match e with
-    | MOk => 0 | M413 => 413 | M400 => 400 | MEOF => 1 | MValue => 2 | MUnbound => 3
-    | MProc => 4 | MUnsup => 5 | MFuel => 6
+    | MOk => 0 | M413 => 413 | M400 => 400 | MProc => 4 | MUnsup => 5 | MFuel => 6
     end.
 
 Definition of_optZs (o : option (list Z)) : sx :=
